@@ -14,6 +14,7 @@ import (
 	"sort"
 	"strings"
 	"sync"
+	"sync/atomic"
 	"time"
 
 	"github.com/coredhcp/coredhcp/handler"
@@ -78,15 +79,37 @@ func readLeases(path string) ([]dbRow, error) {
 	return out, rows.Err()
 }
 
+// handlerHung is set once a handler call did not come back: later calls would block on the same lock
+var handlerHung int32
+
 func callH4(h handler.Handler4, req, resp *dhcpv4.DHCPv4) (out *dhcpv4.DHCPv4, stop bool, panicked bool, pv interface{}) {
-	defer func() {
-		if r := recover(); r != nil {
-			panicked = true
-			pv = r
-		}
+	if atomic.LoadInt32(&handlerHung) != 0 {
+		return nil, true, true, "handler not called: an earlier call never returned (a lock left held?)"
+	}
+	type res struct {
+		out  *dhcpv4.DHCPv4
+		stop bool
+		pan  bool
+		pv   interface{}
+	}
+	done := make(chan res, 1)
+	go func() {
+		var r res
+		defer func() {
+			if x := recover(); x != nil {
+				r.pan, r.pv = true, x
+			}
+			done <- r
+		}()
+		r.out, r.stop = h(req, resp)
 	}()
-	out, stop = h(req, resp)
-	return
+	select {
+	case r := <-done:
+		return r.out, r.stop, r.pan, r.pv
+	case <-time.After(10 * time.Second):
+		atomic.StoreInt32(&handlerHung, 1)
+		return nil, true, true, "handler did not return within 10 s (a lock left held, or a loop)"
+	}
 }
 
 func mkReq4(chaddr []byte, host string, mt dhcpv4.MessageType) *dhcpv4.DHCPv4 {
@@ -225,6 +248,11 @@ func runRangeHistory(c *Ctx, hi int, gs, ge, lease string, clients [][]byte, scr
 		c.Count("op:" + strings.ToLower(so.mt.String()))
 		req := mkReq4(ch, so.host, so.mt)
 		resp, _ := dhcpv4.New()
+		if i%5 == 3 {
+			// an earlier plugin of the chain (lease_time) has set a lease time already: the range plugin's
+			// own lease time is what is stored, so it is what must be promised
+			resp.UpdateOption(dhcpv4.OptIPAddressLeaseTime(7777 * time.Second))
+		}
 		t0 := time.Now()
 		out, stop, pan, pv := callH4(h, req, resp)
 		t1 := time.Now()
@@ -433,6 +461,9 @@ func runRange(c *Ctx) {
 	if c.Prop == "C02" {
 		runRangeConcurrent(c, c.Scale(10, 200))
 	}
+	if c.Prop == "C03" {
+		runRangeConcurrent(c, c.Scale(4, 60)) // the database after simultaneous requests holds one row per client
+	}
 	c.Extra["rule"] = "histories of 1..60 DISCOVER/REQUEST over 1..70 clients (chaddr lengths 0..16 incl. 1-byte decimal-looking and prefix-related addresses, hostnames incl. numeric-looking/NUL/255 bytes/invalid UTF-8) on ranges of size 2,3,63,64,65 and one ending at 255.255.255.255, with restarts on the real sqlite file, the client's row read back after every reply (expiry bracketed by the model run on the clock readings before and after the call); two time-lapse histories in which real seconds pass (renewal inside the lease; restart after the leases ran out); C03: a copy of the file after requests restarted as a crash point and all bound clients probed; C02: concurrent phase; non-trivial = distinct history with >=2 ops and >=1 binding"
 }
 
@@ -516,7 +547,11 @@ func runRangeConcurrent(c *Ctx, ranges int) {
 		// the database must hold exactly one row per client, and the range must take exactly `size` clients
 		rows, _ := readLeases(dbPath)
 		if len(rows) != len(bound) {
-			c.vio("C02", "db-binding-count", fmt.Sprintf("concurrent: leases4 has %d rows for %d clients served (an address was allocated twice for one client)", len(rows), len(bound)), map[string]interface{}{"rounds": hist})
+			p := "C02"
+			if c.Prop == "C03" {
+				p = "C03" // the database no longer holds exactly the bindings handed out: a restart restores something else
+			}
+			c.vio(p, "db-binding-count", fmt.Sprintf("concurrent: leases4 has %d rows for %d clients served (an address was allocated twice for one client)", len(rows), len(bound)), map[string]interface{}{"rounds": hist})
 		}
 		if len(bound) < size {
 			c.vio("C02", "drop-while-free", fmt.Sprintf("concurrent: only %d clients could be served from a range of %d addresses", len(bound), size), map[string]interface{}{"rounds": hist})
